@@ -135,3 +135,50 @@ func resolveLocal(v ssa.Value) ssa.Value {
 	}
 	return v
 }
+
+// linTerms writes an integer value as a linear combination of opaque SSA values plus a constant
+// (through +, -, multiplication by constants and integer conversions that keep small values).
+func linTerms(v ssa.Value) (map[ssa.Value]int64, int64) {
+	terms := map[ssa.Value]int64{}
+	var k int64
+	var walk func(v ssa.Value, coef int64, depth int)
+	walk = func(v ssa.Value, coef int64, depth int) {
+		if c, ok := ssaConstInt(v); ok {
+			k += coef * c
+			return
+		}
+		if depth < 12 {
+			switch x := v.(type) {
+			case *ssa.BinOp:
+				switch x.Op {
+				case token.ADD:
+					walk(x.X, coef, depth+1)
+					walk(x.Y, coef, depth+1)
+					return
+				case token.SUB:
+					walk(x.X, coef, depth+1)
+					walk(x.Y, -coef, depth+1)
+					return
+				case token.MUL:
+					if c, ok := ssaConstInt(x.Y); ok {
+						walk(x.X, coef*c, depth+1)
+						return
+					}
+					if c, ok := ssaConstInt(x.X); ok {
+						walk(x.Y, coef*c, depth+1)
+						return
+					}
+				}
+			case *ssa.ChangeType:
+				walk(x.X, coef, depth+1)
+				return
+			}
+		}
+		terms[v] += coef
+		if terms[v] == 0 {
+			delete(terms, v)
+		}
+	}
+	walk(v, 1, 0)
+	return terms, k
+}
